@@ -19,9 +19,12 @@ func init() { commands["graph-run"] = graphRun }
 // graphRun executes graph scripts on the real sbom package.
 //
 // Script line:  {"op":"Reset","sid":n,"regs":{name: projected node list}}
-//               {"op":<name>,"sid":n, ...arguments}
+//
+//	{"op":<name>,"sid":n, ...arguments}
+//
 // Trace line:   the script line plus "res" (outcome), "ch" (projected value of
-//               every register whose projection changed), and op specific results.
+//
+//	every register whose projection changed), and op specific results.
 func graphRun(args []string) error {
 	fs := flag.NewFlagSet("graph-run", flag.ExitOnError)
 	in := fs.String("scripts", "", "script file (ndjson)")
@@ -433,11 +436,15 @@ func mutPoints(m protoreflect.Message, path string, out *[]mutPoint) {
 				sub := m.Get(fd).Message()
 				sfd := sub.Descriptor().Fields().ByName("seconds")
 				*out = append(*out, mutPoint{p + ".seconds=", func() { sub.Set(sfd, protoreflect.ValueOfInt64(sub.Get(sfd).Int()+7777)) }})
+				*out = append(*out, mutPoint{p + ".clear", func() { m.Clear(fd) }})
 				continue
 			}
 			mutPoints(m.Get(fd).Message(), p, out)
 		default:
 			*out = append(*out, mutPoint{p + "=", func() { m.Set(fd, mutScalar(fd, m.Get(fd))) }})
+			if m.Has(fd) && fd.Name() != "id" {
+				*out = append(*out, mutPoint{p + ".clear", func() { m.Clear(fd) }})
+			}
 		}
 	}
 }
